@@ -164,6 +164,23 @@ def compare_output(env, spec, ref_vals, tname, obls, nonzero):
                 obls.append(Obl(c, "%s%s outside the declared extent has a value" % (tname, list(pt))))
 
 
+def shape_obligations(obls):
+    """every coordinate created in a tensor constructed with an explicit shape lies below the shape of its rank"""
+    from .sym import num_lt, gand, gnot
+    for T in CTX.shaped:
+        if T.nr() == 0:
+            continue
+        for g, cs, leaf in points(T.root, T.nr()):
+            for d, c in enumerate(cs):
+                if isinstance(c, tuple):
+                    continue
+                ok = num_lt(c, T.shape[d])
+                bad = gand(g, gnot(ok))
+                if bad is not False:
+                    obls.append(Obl(bad, "%s: coordinate %s of rank %s is outside the declared shape %s (outside the declared extent)"
+                                    % (T.name, c, T.rank_ids[d] if d < len(T.rank_ids) else d, T.shape[d])))
+
+
 def reference(spec, P, drop_last_of=None):
     w = DenseWorld(spec["decl"], spec["extents"], P)
     return w.run(spec["exprs"], drop_last_of=drop_last_of)
@@ -220,6 +237,7 @@ def check_equiv(spec, text, targets=None):
         obls, nonzero = [], []
         for t in targets:
             compare_output(env, spec, ref[t], t, obls, nonzero)
+        shape_obligations(obls)
     except NotModelled as ex:
         return dict(res, status="inconclusive", why="not modelled: %s" % ex)
     except RefError as ex:
@@ -274,6 +292,7 @@ def replay_concrete(spec, text, presence, targets=None):
     try:
         for t in targets:
             compare_output(env, spec, ref[t], t, obls, nz)
+        shape_obligations(obls)
     except ModelError as ex:
         return ["model-error: %s" % ex]
     return [o.what for o in obls if o.cond is True]
